@@ -3,13 +3,21 @@
   Proved here: every place where the model turns a user-ordered (or set-ordered) collection into a result goes either
   through a dictionary LOOKUP (insensitive to the order of a duplicate-free list) or through the canonical sort.
   The order in which children are processed is fixed by the wiring (`sortedChildrenOrder`), not by the listing.
-  PARTIAL: invariance of the whole compiled tree under permutations of `children` needs the graph-theoretic fact that any
-  two valid processing orders give the same values; that part is covered by the permutation oracle of harness/props/c09.py
-  (all child orders for <= 4 children in the thorough tier) and by the refinement theorem C01 (both orders equal the reading).
+  The order in which the children of a routine are PROCESSED does not matter either: `C09_children_order_irrelevant` — for any
+  two orders in which no child is fed by a later one, `_compile` gives the parent the same ports, resources, input parameters,
+  constraints and repetition and compiles every child to the same result (BartiqProofs/ChildOrder.lean: compilation sees its
+  parameter dictionaries only as mappings, two children without a wire between them commute, and any two valid orders are
+  connected by such exchanges); and `C09_children_processed_consistently_with_wiring` — whatever order the children are LISTED in,
+  the order `sorted_children_order` returns is such an order.  `C09_relisting_children_everywhere` lifts this to re-listings at
+  EVERY level of the hierarchy at once (BartiqProofs/ChildOrderDeep.lean).  PARTIAL: the other list-valued fields (ports,
+  resources, connections, links, locals) are covered by the lookup / canonical-sort lemmas above and by the permutation oracle
+  of harness/props/c09.py, not by one whole-tree theorem.
 -/
 import BartiqProofs.SortLemmas
 import BartiqProofs.EvaluateLemmas
 import BartiqProofs.GraphLemmas
+import BartiqProofs.ChildOrderSort
+import BartiqProofs.ChildOrderDeep
 namespace Bartiq
 open Expr
 
@@ -80,5 +88,84 @@ theorem C09_locals_in_dependency_order (locals : Dict Expr) (order : List String
     rcases h3.2.1 (u, v) hedge with hne | hmem
     · exact absurd rfl hne
     · simpa using hmem
+
+/-- `_compile` reads its parameter dictionary only as a mapping: the same bindings inserted in another order give the very
+    same compiled routine (whole subtree) -/
+theorem C09_parameters_as_mapping (C : Comparator) (r : Routine) (σ σ' : Dict Expr) (path : String) (hp : σ.Perm σ')
+    (hn : (σ.map (·.1)).Nodup) : compile C σ path r = compile C σ' path r :=
+  compile_congr C r σ σ' path ⟨hp, hn⟩
+
+/-- two children without a wire between them can be compiled in either order: the same compiled children, the same compiled
+    siblings after them, parameters equal up to the order of dictionary entries -/
+theorem C09_independent_children_commute (C : Comparator) (conns : List (Endpoint × Endpoint)) (path : String) (pm : PTree)
+    (hw : PWF pm) (a b : Routine) (rest : List Routine) (hab : a.name ≠ b.name) (hind : Independent conns a.name b.name)
+    (htd : TargetsDistinct conns) (p : PTree) (ca cb : CRoutine) (ccs : List CRoutine)
+    (h : compileChildren C conns path pm (a :: b :: rest) = .ok (p, ca :: cb :: ccs)) :
+    ∃ p', compileChildren C conns path pm (b :: a :: rest) = .ok (p', cb :: ca :: ccs) ∧ PEq p p' :=
+  compileChildren_swap C conns path pm hw a b rest hab hind htd p ca cb ccs h
+
+/-- **every reordering of the children of a routine that respects the wiring yields equal resources, port sizes, input
+    parameters, constraints and repetition at that routine, and the same compiled children** (listed in the respective order).
+    Hypotheses: children have distinct names, every port is the target of at most one connection (what verification enforces),
+    the incoming parameter dictionary has unique keys, and the references `child.resource` are unambiguous. -/
+theorem C09_children_order_irrelevant (C : Comparator) (name : String) (ty : Option String) (ips : List String) (lvs : Dict Expr)
+    (lks : Dict (List (String × String))) (ps : List Port) (rs : List Resource) (cs : List (Endpoint × Endpoint))
+    (rep : Option Repetition) (cons : List Constraint) (ord : List String) (ch ch' : List Routine) (σ : Dict Expr) (path : String)
+    (hσ : Dict.NodupKeys σ) (hperm : ch.Perm ch') (hnd : (ch.map (·.name)).Nodup) (htd : TargetsDistinct cs)
+    (hv : ValidOrder cs ch) (hv' : ValidOrder cs ch') (c : CRoutine)
+    (h : compile C σ path ⟨name, ty, ips, lvs, lks, ps, rs, cs, rep, cons, ch, ord⟩ = .ok c)
+    (hkeys : Dict.NodupKeys (cvList c.children)) :
+    ∃ ccs', compile C σ path ⟨name, ty, ips, lvs, lks, ps, rs, cs, rep, cons, ch', ord⟩ = .ok { c with children := ccs' } ∧
+      c.children.Perm ccs' :=
+  compile_children_order C name ty ips lvs lks ps rs cs rep cons ord ch ch' σ path hσ hperm hnd htd hv hv' c h hkeys
+
+/-- **in particular children are processed consistently with the wiring whatever order they are listed in**: the order
+    `sorted_children_order` returns — the listed one if it already follows the data flow, graphlib's otherwise — never puts a
+    child before one that feeds it, for every listing and every `children_order` -/
+theorem C09_children_processed_consistently_with_wiring (ch : List Routine) (ord o : List String) (conns : List (Endpoint × Endpoint))
+    (hn : (ch.map (·.name)).Nodup) (hord : ord.Perm (ch.map (·.name))) (hin : InnerEndpointsIn (ch.map (·.name)) conns)
+    (h : sortedChildrenOrder (ch.map (·.name)) ord conns = .ok o) : ValidOrder conns (reorder (·.name) ch o) :=
+  sortedChildren_valid ch ord o conns hn hord hin h
+
+-- non-vacuity: two leaves fed from the parent's inputs, no wire between them: both orders are valid, targets are distinct
+def leafA : Routine := ⟨"a", none, [], [], [], [⟨"in_0", .input, .sym "N"⟩], [⟨"T", .additive, .sym "N"⟩], [], none, [], [], []⟩
+def leafB : Routine := ⟨"b", none, [], [], [], [⟨"in_0", .input, .sym "M"⟩], [⟨"T", .additive, .sym "M"⟩], [], none, [], [], []⟩
+def twoWires : List (Endpoint × Endpoint) := [(⟨none, "in_0"⟩, ⟨some "a", "in_0"⟩), (⟨none, "in_1"⟩, ⟨some "b", "in_0"⟩)]
+example : ValidOrder twoWires [leafA, leafB] ∧ ValidOrder twoWires [leafB, leafA] := by
+  refine ⟨⟨?_, ⟨?_, trivial⟩⟩, ⟨?_, ⟨?_, trivial⟩⟩⟩ <;> intro b hb <;> simp at hb <;> subst hb <;>
+    rintro ⟨c, hc, h1, h2⟩ <;> simp [twoWires] at hc <;> rcases hc with rfl | rfl <;> simp [leafA, leafB] at h1 h2
+example : TargetsDistinct twoWires := by
+  intro c1 h1 c2 h2 he
+  simp [twoWires] at h1 h2
+  rcases h1 with rfl | rfl <;> rcases h2 with rfl | rfl <;> simp_all
+example : Independent twoWires "a" "b" := by
+  intro c hc
+  simp [twoWires] at hc
+  rcases hc with rfl | rfl <;> simp
+
+/-- **re-listing the children at every level of the hierarchy** (each time in an order that respects the wiring, with any
+    recorded `children_order`) changes nothing but the order in which compiled children are listed: every routine of the
+    compiled hierarchy has the same ports, resources, input parameters, constraints and repetition (`CSim`) -/
+theorem C09_relisting_children_everywhere (C : Comparator) (r r' : Routine) (σ : Dict Expr) (path : String) (c : CRoutine)
+    (hs : RSim r r') (hσ : Dict.NodupKeys σ) (h : compile C σ path r = .ok c) (href : c.RefsOK) :
+    ∃ c', compile C σ path r' = .ok c' ∧ CSim c c' :=
+  compile_sim C r r' σ path c hs hσ h href
+
+-- non-vacuity: the two listings of a parent over the two leaves below are related by `RSim`
+example : RSim ⟨"root", none, ["N", "M"], [], [], [⟨"in_0", .input, .sym "N"⟩, ⟨"in_1", .input, .sym "M"⟩], [], twoWires, none, [], [leafA, leafB], ["a", "b"]⟩
+    ⟨"root", none, ["N", "M"], [], [], [⟨"in_0", .input, .sym "N"⟩, ⟨"in_1", .input, .sym "M"⟩], [], twoWires, none, [], [leafB, leafA], ["b", "a"]⟩ := by
+  simp only [RSim, true_and]
+  refine ⟨by decide, ?_, ?_, ?_, [leafA, leafB], ?_, List.Perm.swap _ _ _⟩
+  · intro c1 h1 c2 h2 he
+    simp [twoWires] at h1 h2
+    rcases h1 with rfl | rfl <;> rcases h2 with rfl | rfl <;> simp_all
+  · refine ⟨?_, ⟨?_, trivial⟩⟩ <;> intro b hb <;> simp at hb <;> subst hb <;>
+      rintro ⟨c, hc, h1, h2⟩ <;> simp [twoWires] at hc <;> rcases hc with rfl | rfl <;> simp [leafA, leafB] at h1 h2
+  · refine ⟨?_, ⟨?_, trivial⟩⟩ <;> intro b hb <;> simp at hb <;> subst hb <;>
+      rintro ⟨c, hc, h1, h2⟩ <;> simp [twoWires] at hc <;> rcases hc with rfl | rfl <;> simp [leafA, leafB] at h1 h2
+  · simp only [RSimList]
+    refine ⟨leafA, [leafB], rfl, ?_, leafB, [], rfl, ?_, rfl⟩ <;>
+      simp [RSim, leafA, leafB, TargetsDistinct, ValidOrder, RSimList]
+
 
 end Bartiq
